@@ -113,6 +113,28 @@ pub fn programs() -> Vec<Prog> {
         let key = format!("roles={}{}{}", comps.iter().filter(|c| has(c)).cloned().collect::<String>(), if with_r && r_first { "R1st" } else if with_r { "R" } else { "" }, if extras { "+extras" } else { "" });
         out.push(Prog { key, src, structs });
     }
+    // a struct nested in a host struct at each member position, with members of repeated types around it; the nested
+    // struct is also a vertex input / only nested
+    for pos in 0..3usize {
+        for also_vertex in [false, true] {
+            for second_global in [false, true] {
+                let mut members = vec!["t: f32", "dt: f32"];
+                members.insert(pos, "first: NestedBoth");
+                let mut src = format!("struct NestedBoth {{ @location(0) v: vec4<f32> }};\nstruct SceneHost {{ {} }};\n", members.join(", "));
+                let mut binding = 0;
+                if second_global {
+                    // a global declared earlier whose type is seen again inside the struct
+                    src.push_str("@group(0) @binding(0) var<uniform> earlier_time: f32;\n");
+                    binding = 1;
+                }
+                src.push_str(&format!("@group(0) @binding({binding}) var<storage, read> scene_host: SceneHost;\n"));
+                let vparam = if also_vertex { "nb: NestedBoth" } else { "" };
+                src.push_str(&format!("@vertex fn vs_main({vparam}) -> @builtin(position) vec4<f32> {{\n    return vec4<f32>(scene_host.t);\n}}\n@fragment fn fs_main() -> @location(0) vec4<f32> {{\n    return vec4<f32>(1.0);\n}}\n@compute @workgroup_size(2, 3) fn cs_main() {{\n}}\n"));
+                let structs = vec![RoleStruct { name: "NestedBoth", host: true, rts: false }, RoleStruct { name: "SceneHost", host: true, rts: false }];
+                out.push(Prog { key: format!("roles=nested-both|pos={pos}|vertex={}|earlier={}", also_vertex as u8, second_global as u8), src, structs });
+            }
+        }
+    }
     out
 }
 
@@ -182,7 +204,7 @@ pub fn run(tier: &str) -> i32 {
     let mut progs = programs();
     if !thorough {
         // quick: every single component and the full set, plus runtime-array variants
-        progs.retain(|p| p.key.len() <= "roles=XX".len() || p.key.contains("VHBFNW") || p.key.contains('R'));
+        progs.retain(|p| p.key.len() <= "roles=XX".len() || p.key.contains("VHBFNW") || p.key.contains('R') || p.key.contains("nested-both"));
         let _ = 0;
     }
     let configs = all_configs_192();
@@ -367,6 +389,7 @@ pub fn run(tier: &str) -> i32 {
             Config { validate: Validate::All, encase: true, serde: true, ..Config::default() },
             Config { bytemuck_vertex: true, bytemuck_host: true, ..Config::default() },
         ];
+        let alts: Vec<Config> = if thorough { alts.to_vec() } else { vec![alts[0], alts[2], alts[3], alts[4]] };
         let res = par_map(&corpus, |(key, src)| {
             let module = match naga::front::wgsl::parse_str(src) {
                 Ok(m) => m,
@@ -377,7 +400,7 @@ pub fn run(tier: &str) -> i32 {
             let mut reference: Option<(String, Vec<String>)> = None;
             let mut diffs = vec![];
             let mut n_ok = 0;
-            for c in &alts {
+            for c in alts.iter() {
                 if let Outcome::Ok(t) = generate(src, c) {
                     match split(&t, &user_ref) {
                         Ok(sp) => {
